@@ -1,11 +1,17 @@
 // ---- environment of Value::eq / Value::partial_cmp ----
 // R16 wrappers: comparisons that std delegates to generic impls (recursion through them is rejected by Verus as a trait cycle)
 // or that involve doubles / chrono.  Each body is the original expression; each contract is ASSUMED (std / IEEE / chrono).
+/// `a == b` on `&Map` inside Value::eq: dispatches to `impl PartialEq for Map` (unit objects.map_eq, verified in group ops)
 #[verifier::external_body] pub fn __eq_map(a: &Map, b: &Map) -> (r: bool)
-    ensures r == veq(SVal::Map(amap(a.map@)), SVal::Map(amap(b.map@)))    // HashMap ==: same keys, equal values (by Value::eq)
+    ensures r == veq(SVal::Map(amap(a.map@)), SVal::Map(amap(b.map@)))
 { unimplemented!() }
-#[verifier::external_body] pub fn __eq_list(a: &Arc<Vec<Value>>, b: &Arc<Vec<Value>>) -> (r: bool)
-    ensures r == veq(SVal::List(vlist(a@)), SVal::List(vlist(b@)))        // Vec ==: same length, element-wise Value::eq
+/// std `HashMap == HashMap` (ASSUMED): same length and every entry of one has an equal value (by Value::eq) under the same key in the other
+#[verifier::external_body] pub fn __eq_hashmap(a: &HashMap<Key, Value>, b: &HashMap<Key, Value>) -> (r: bool)
+    ensures r == veq(SVal::Map(amap(a@)), SVal::Map(amap(b@)))
+{ unimplemented!() }
+/// std `Vec == Vec` (slice comparison, ASSUMED): same length, element-wise Value::eq.  NOT `Arc == Arc`, which short-circuits on pointer identity
+#[verifier::external_body] pub fn __eq_vec(a: &Vec<Value>, b: &Vec<Value>) -> (r: bool)
+    ensures r == veq(SVal::List(vlist(a@)), SVal::List(vlist(b@)))
 { unimplemented!() }
 #[verifier::external_body] pub fn __eq_optbox(a: &Option<Box<Value>>, b: &Option<Box<Value>>) -> (r: bool)
     ensures r == (match (*a, *b) { (Some(p), Some(q)) => veq(vview(*p), vview(*q)), (None, None) => true, _ => false })
